@@ -37,6 +37,13 @@ theorem tsigRun_exists (cfg : Cfg) (tr : Transport) (now bufLen : Nat) (req : By
   obtain ⟨t, mw, r', question, h1, h2, h3, h4⟩ := handleMessage_tsig_eq cfg tr now bufLen req hbuf hpay hreq hr hv
   exact ⟨t, mw, r', question, h1, h2, h3, h4⟩
 
+/-- `set_rcode(rc)` on the header view -/
+theorem hdrView_stRcode (rc : Nat) (s : State) (h3 : 3 < s.octets.size) {v : View} (h : HdrView s v) :
+    HdrView (stRcode rc s) { rcode := rc, aa := v.aa, tc := v.tc } := by
+  have h1 := ((hdrStep_setRcode rc) s v h).1
+  rw [setRcode_eq rc s h3] at h1
+  exact ⟨(h1 rfl).1, (h1 rfl).2.1, (h1 rfl).2.2⟩
+
 /-- authenticated, no-data verdict (`signed_nodata_final`) -/
 theorem signed_nodata_final_of_run (cfg : Cfg) (tr : Transport) (now bufLen : Nat) (req : Bytes)
     (hbuf : minBuf tr cfg.payload ≤ bufLen) (hpay : 512 ≤ cfg.payload) (hp16 : cfg.payload ≤ 65535)
@@ -58,7 +65,8 @@ theorem signed_nodata_final_of_run (cfg : Cfg) (tr : Transport) (now bufLen : Na
           F.edns = (if (Spec.Server.specScanWith (catKind cfg) cfg.payload req).edns then some ⟨cfg.payload, 0⟩ else none) ∧
           mac = some (Server.macFn (respTsig alg key kn t nowT)
             (signedPrefix req cfg.payload (Spec.Server.specScanWith (catKind cfg) cfg.payload req)
-              (Spec.Server.verdictRcode v).1)) := by
+              (Spec.Server.verdictRcode v).1)) ∧
+          HdrView F { rcode := (Spec.Server.verdictRcode v).1 } := by
   obtain ⟨h1, h2, _, h4⟩ := hrun
   intro r'' S hT v hvv hev b hb
   have hne : endVerdict (catKind cfg) req.size (Spec.Server.specScanWith (catKind cfg) cfg.payload req).question
@@ -86,6 +94,8 @@ theorem signed_nodata_final_of_run (cfg : Cfg) (tr : Transport) (now bufLen : Na
       (((req.getD 2 0).toNat &&& 1) != 0) hbuf hpay req sc.question hq
   have g1 := good_s1 bufLen tr cfg.payload (Spec.Server.hdr req 0) (((req.getD 2 0).toNat &&& 120) >>> 3)
       (((req.getD 2 0).toNat &&& 1) != 0) hbuf hpay req sc.question hq
+  have hv0 := hdrView_scan_state bufLen tr cfg.payload (Spec.Server.hdr req 0) (((req.getD 2 0).toNat &&& 120) >>> 3)
+      (((req.getD 2 0).toNat &&& 1) != 0) hbuf hpay req sc.question hq sc.edns sc.limitUdp
   generalize qSt (hdrSt (w0 bufLen (lim0 tr)) (Spec.Server.hdr req 0) (((req.getD 2 0).toNat &&& 120) >>> 3)
       (((req.getD 2 0).toNat &&& 1) != 0)) sc.question = s1 at *
   unfold Server.tsigAfter at hT
@@ -129,7 +139,12 @@ theorem signed_nodata_final_of_run (cfg : Cfg) (tr : Transport) (now bufLen : Na
       obtain ⟨hmac, _⟩ := signed_response_list Server.macFn req cfg.payload sc
         (Spec.Server.verdictRcode v).1 s1 _ (respTsig alg key kn t nowT) hcur o0 o1 o2 hQ hqd han hns har
         hF.oct hF.o3 hF.cur hF.tsig hF.edns hF.qd hF.an hF.ns hF.ar b mac hfin
-      exact ⟨nowT, alg, key, kn, _, mac, rfl, ha, hk, hkn, hver, hfin, gD, hF.tsig, hF.edns, by rw [hmac]; rfl⟩
+      have hdrV : HdrView (stRcode (Spec.Server.verdictRcode v).1
+          (ServerTsig.withTsig (stRcode 0 (arSt s1 tr cfg.payload sc.edns sc.limitUdp))
+            (.response (Server.toWriterAlg alg) t.mac key.secret) (ServerTsig.prepOf kn t nowT 0)))
+          { rcode := (Spec.Server.verdictRcode v).1 } :=
+        hdrView_stRcode _ _ h3c (hdrView_withTsig _ h3s hv0 _ _)
+      exact ⟨nowT, alg, key, kn, _, mac, rfl, ha, hk, hkn, hver, hfin, gD, hF.tsig, hF.edns, by rw [hmac]; rfl, hdrV⟩
     · rw [hfin] at hM; cases hM
     · rw [hfin] at hM; cases hM
 
@@ -149,7 +164,8 @@ theorem signed_error_final_of_run (cfg : Cfg) (tr : Transport) (now bufLen : Nat
             F.tsig = some ⟨mode, ServerTsig.reservedLen mode rr, rr⟩ ∧
             F.edns = (if (Spec.Server.specScanWith (catKind cfg) cfg.payload req).edns then some ⟨cfg.payload, 0⟩ else none) ∧
             mac = finishMac Server.macFn ⟨mode, ServerTsig.reservedLen mode rr, rr⟩
-              (signedPrefix req cfg.payload (Spec.Server.specScanWith (catKind cfg) cfg.payload req) rc) := by
+              (signedPrefix req cfg.payload (Spec.Server.specScanWith (catKind cfg) cfg.payload req) rc) ∧
+            HdrView F { rcode := rc } := by
   obtain ⟨h1, h2, _, h4⟩ := hrun
   intro nowT kn an rc mode rr hnow hkn han hrep hfit b hb
   obtain ⟨_, _, hsce⟩ := specScanWith_respond _ _ _ hr
@@ -165,6 +181,8 @@ theorem signed_error_final_of_run (cfg : Cfg) (tr : Transport) (now bufLen : Nat
       (((req.getD 2 0).toNat &&& 1) != 0) hbuf hpay req sc.question hq
   have g1 := good_s1 bufLen tr cfg.payload (Spec.Server.hdr req 0) (((req.getD 2 0).toNat &&& 120) >>> 3)
       (((req.getD 2 0).toNat &&& 1) != 0) hbuf hpay req sc.question hq
+  have hv0 := hdrView_scan_state bufLen tr cfg.payload (Spec.Server.hdr req 0) (((req.getD 2 0).toNat &&& 120) >>> 3)
+      (((req.getD 2 0).toNat &&& 1) != 0) hbuf hpay req sc.question hq sc.edns sc.limitUdp
   generalize qSt (hdrSt (w0 bufLen (lim0 tr)) (Spec.Server.hdr req 0) (((req.getD 2 0).toNat &&& 120) >>> 3)
       (((req.getD 2 0).toNat &&& 1) != 0)) sc.question = s1 at *
   have h3s : 3 < (arSt s1 tr cfg.payload sc.edns sc.limitUdp).octets.size := by rw [arSt_size]; exact hs3
@@ -189,7 +207,9 @@ theorem signed_error_final_of_run (cfg : Cfg) (tr : Transport) (now bufLen : Nat
     obtain ⟨hmac, _⟩ := signed_response_list Server.macFn req cfg.payload sc rc s1 _
       ⟨mode, ServerTsig.reservedLen mode rr, rr⟩ hcur o0 o1 o2 hQ hqd han' hns har
       hF.oct hF.o3 hF.cur hF.tsig hF.edns hF.qd hF.an hF.ns hF.ar b mac hfin
-    exact ⟨_, mac, hfin, gC, hF.tsig, hF.edns, hmac⟩
+    have hdrV : HdrView (ServerTsig.withTsig (stRcode rc (arSt s1 tr cfg.payload sc.edns sc.limitUdp)) mode rr)
+        { rcode := rc } := hdrView_congr (hdrView_stRcode rc _ h3s hv0) rfl rfl
+    exact ⟨_, mac, hfin, gC, hF.tsig, hF.edns, hmac, hdrV⟩
   · rw [hfin] at h4; cases h4
   · rw [hfin] at h4; cases h4
 
@@ -388,5 +408,650 @@ theorem signed_nofit_final_of_run (cfg : Cfg) (tr : Transport) (now bufLen : Nat
     cases sc.edns <;> rfl
   · rw [hfin] at h4; cases h4
   · rw [hfin] at h4; cases h4
+
+/-! ### the rows are exhaustive and exclusive -/
+
+theorem lowerU8_small (b : UInt8) : (lowerU8 b = 9 → b = 9) ∧ (lowerU8 b = 11 → b = 11) ∧ (lowerU8 b = 0 → b = 0) := by
+  revert b; apply Wire.forall_uint8; unfold lowerU8; decide +kernel
+
+/-- a name the algorithm table knows is a well-formed wire name -/
+theorem fromName_parses (n : List UInt8) (alg : Tsig.Algorithm) (h : Tsig.Algorithm.fromName n = some alg) :
+    ∃ an, WName.parse n = some (an, []) := by
+  have hl := fromName_some n alg h
+  cases alg with
+  | HmacSha1 =>
+    simp only [Tsig.lowerName, Tsig.Algorithm.name, Tsig.hmacSha1Name, List.map_eq_cons_iff, List.map_eq_nil_iff] at hl
+    obtain ⟨b0, r0, rfl, h0, b1, r1, rfl, _, b2, r2, rfl, _, b3, r3, rfl, _, b4, r4, rfl, _, b5, r5, rfl, _,
+      b6, r6, rfl, _, b7, r7, rfl, _, b8, r8, rfl, _, b9, r9, rfl, _, b10, r10, rfl, h10, rfl⟩ := hl
+    have e0 := (lowerU8_small b0).1 h0
+    have e10 := (lowerU8_small b10).2.2 h10
+    subst e0 e10
+    exact ⟨_, rfl⟩
+  | HmacSha256 =>
+    simp only [Tsig.lowerName, Tsig.Algorithm.name, Tsig.hmacSha256Name, List.map_eq_cons_iff, List.map_eq_nil_iff] at hl
+    obtain ⟨b0, r0, rfl, h0, b1, r1, rfl, _, b2, r2, rfl, _, b3, r3, rfl, _, b4, r4, rfl, _, b5, r5, rfl, _,
+      b6, r6, rfl, _, b7, r7, rfl, _, b8, r8, rfl, _, b9, r9, rfl, _, b10, r10, rfl, _, b11, r11, rfl, _,
+      b12, r12, rfl, h12, rfl⟩ := hl
+    have e0 := (lowerU8_small b0).2.1 h0
+    have e12 := (lowerU8_small b12).2.2 h12
+    subst e0 e12
+    exact ⟨_, rfl⟩
+
+/-- **the TSIG step, classified**: a run that does not panic has a key name that parses, and either
+    the decision table rejects the request (`tsigStopReply = some …`; the step stops, whether the
+    reply fits or not), or the request is authenticated (the step goes on iff the response TSIG fits) -/
+theorem tsigProcess_rows (hm : Tsig.Algorithm → Tsig.Octets → Tsig.Octets → Tsig.Octets) (keys : List Server.Key)
+    (s : State) (h3 : 3 < s.octets.size) (r : Tsig.ReadTsigRr) (msg : List UInt8) (nowT : Tsig.TimeSigned)
+    (r' : Reader.Reader) (o : Option Reader.Reader) (S : State)
+    (h : Server.tsigProcess hm keys nowT r msg r' s = (.ok o, S)) :
+    ∃ kn, WName.parse r.keyName = some (kn, []) ∧
+      ((∃ an rc mode rr, WName.parse r.algorithm = some (an, []) ∧
+          tsigStopReply hm keys nowT r msg kn an = some (rc, mode, rr) ∧ o = none) ∨
+       (∃ alg key, Tsig.Algorithm.fromName r.algorithm = some alg ∧ Server.findKey keys r.keyName alg = some key ∧
+          Tsig.verifyRequest hm r msg alg key.secret nowT = .ok () ∧
+          ((TsigFits s (.response (Server.toWriterAlg alg) r.mac key.secret) (prepOf kn r nowT 0) ∧ o = some r') ∨
+           (¬ TsigFits s (.response (Server.toWriterAlg alg) r.mac key.secret) (prepOf kn r nowT 0) ∧ o = none)))) := by
+  -- the BADKEY tail
+  have bad : ∀ o S, Server.tsigBadKey r nowT s = (.ok o, S) →
+      ∃ kn an, WName.parse r.keyName = some (kn, []) ∧ WName.parse r.algorithm = some (an, []) ∧ o = none := by
+    intro o S h
+    rcases hP : WName.parse r.algorithm with _ | ⟨an, rest⟩
+    · exfalso
+      unfold Server.tsigBadKey at h
+      obtain ⟨_, s1, _, h⟩ := bind_ok_inv h
+      rw [hP] at h; cases h
+    · cases rest with
+      | cons x y =>
+        exfalso
+        unfold Server.tsigBadKey at h
+        obtain ⟨_, s1, _, h⟩ := bind_ok_inv h
+        rw [hP] at h
+        rcases Server.preparedFromRead r nowT (Server.XRC "BADKEY") with _ | prep <;> cases h
+      | nil =>
+        by_cases hk : ∃ kn, WName.parse r.keyName = some (kn, [])
+        · obtain ⟨kn, hkn⟩ := hk
+          refine ⟨kn, an, hkn, rfl, ?_⟩
+          by_cases hf : TsigFits s (.unsigned an) (prepOf kn r nowT 17)
+          · rw [tsigBadKey_fits s h3 r nowT kn an hkn hP hf] at h; cases h; rfl
+          · rw [tsigBadKey_nofit s h3 r nowT kn an hkn hP hf] at h; cases h; rfl
+        · exfalso
+          have hn : ∀ kn, WName.parse r.keyName ≠ some (kn, []) := fun kn hkn => hk ⟨kn, hkn⟩
+          unfold Server.tsigBadKey at h
+          obtain ⟨_, s1, _, h⟩ := bind_ok_inv h
+          rw [hP, preparedFromRead_none r nowT _ hn] at h
+          cases h
+  unfold Server.tsigProcess at h
+  cases hA : Tsig.Algorithm.fromName r.algorithm with
+  | none =>
+    rw [hA] at h
+    obtain ⟨kn, an, hkn, han, ho⟩ := bad o S h
+    exact ⟨kn, hkn, Or.inl ⟨an, 9, .unsigned an, prepOf kn r nowT 17, han, by simp only [tsigStopReply, hA], ho⟩⟩
+  | some alg =>
+    rw [hA] at h
+    simp only at h
+    obtain ⟨an, han⟩ := fromName_parses _ _ hA
+    cases hK : Server.findKey keys r.keyName alg with
+    | none =>
+      rw [hK] at h
+      obtain ⟨kn, an', hkn, han', ho⟩ := bad o S h
+      exact ⟨kn, hkn, Or.inl ⟨an', 9, .unsigned an', prepOf kn r nowT 17, han', by simp only [tsigStopReply, hA, hK], ho⟩⟩
+    | some key =>
+      rw [hK] at h
+      simp only at h
+      by_cases hk : ∃ kn, WName.parse r.keyName = some (kn, [])
+      · obtain ⟨kn, hkn⟩ := hk
+        refine ⟨kn, hkn, ?_⟩
+        have step : ∀ (rc e : Nat) (mode : TsigMode) (b : Bool),
+            (do setRcode rc
+                let added ← Server.setTsigOrTruncate mode (prepOf kn r nowT e)
+                if added && b then pure (some r') else pure none : M (Option Reader.Reader)) s = (.ok o, S) →
+            (TsigFits s mode (prepOf kn r nowT e) ∧ o = (if b then some r' else none)) ∨
+            (¬ TsigFits s mode (prepOf kn r nowT e) ∧ o = none) := by
+          intro rc e mode b hrun
+          by_cases hf : TsigFits s mode (prepOf kn r nowT e)
+          · rw [tsigStep_fits rc mode _ b r' s h3 hf] at hrun
+            cases hrun; exact Or.inl ⟨hf, rfl⟩
+          · rw [tsigStep_nofit rc mode _ b r' s h3 hf] at hrun
+            cases hrun; exact Or.inr ⟨hf, rfl⟩
+        have stopNone : ∀ {P : Prop} {b : Bool}, b = false →
+            (P ∧ o = (if b then some r' else none)) ∨ (¬ P ∧ o = none) → o = none := by
+          intro P b hb hh
+          subst hb
+          rcases hh with ⟨_, h⟩ | ⟨_, h⟩ <;> exact h
+        unfold Server.tsigVerifyAndWrite at h
+        rcases hv : Tsig.verifyRequest hm r msg alg key.secret nowT with u | e | _
+        · rw [hv] at h
+          simp only [Server.tsigReply, preparedFromRead_eq kn r nowT _ hkn, rc_noerror, xrc_noerror] at h
+          right
+          refine ⟨alg, key, rfl, hK, hv, ?_⟩
+          rcases step _ _ _ _ h with ⟨hf, ho⟩ | ⟨hf, ho⟩
+          · exact Or.inl ⟨hf, by rw [ho]; simp⟩
+          · exact Or.inr ⟨hf, ho⟩
+        · rw [hv] at h
+          left
+          cases e with
+          | BadSig =>
+            simp only [Server.tsigReply, preparedFromRead_eq kn r nowT _ hkn, rc_noerror, rc_notauth, xrc_badsig] at h
+            exact ⟨an, 9, .unsigned (algName (Server.toWriterAlg alg)), prepOf kn r nowT 16, han, by simp only [tsigStopReply, hA, hK, hv],
+              stopNone (by decide) (step _ _ _ _ h)⟩
+          | BadTime =>
+            simp only [Server.tsigReply, preparedFromRead_eq kn r nowT _ hkn, rc_noerror, rc_notauth, xrc_badtime] at h
+            exact ⟨an, 9, .response (Server.toWriterAlg alg) r.mac key.secret, prepOf kn r nowT 18, han, by simp only [tsigStopReply, hA, hK, hv],
+              stopNone (by decide) (step _ _ _ _ h)⟩
+          | FormErr =>
+            simp only [Server.tsigReply, preparedFromRead_eq kn r nowT _ hkn, rc_noerror, rc_formerr, xrc_badsig] at h
+            exact ⟨an, 1, .unsigned (algName (Server.toWriterAlg alg)), prepOf kn r nowT 16, han, by simp only [tsigStopReply, hA, hK, hv],
+              stopNone (by decide) (step _ _ _ _ h)⟩
+        · rw [hv] at h
+          simp only [Server.tsigReply] at h
+          cases h
+      · exfalso
+        have hn : ∀ kn, WName.parse r.keyName ≠ some (kn, []) := fun kn hkn => hk ⟨kn, hkn⟩
+        unfold Server.tsigVerifyAndWrite at h
+        split at h
+        · rw [preparedFromRead_none r nowT _ hn] at h
+          cases h
+        · cases h
+
+
+theorem preTsig_size3 (cfg : Cfg) (tr : Transport) (bufLen : Nat) (req : Bytes)
+    (hbuf : minBuf tr cfg.payload ≤ bufLen) (hpay : 512 ≤ cfg.payload)
+    (hr : (Spec.Server.specScanWith (catKind cfg) cfg.payload req).respond = true) :
+    3 < (preTsigState cfg tr bufLen req).octets.size := by
+  obtain ⟨_, _, hsce⟩ := specScanWith_respond _ _ _ hr
+  unfold preTsigState
+  rw [hsce, arSt_size]
+  have hq : ∀ x, (specBody (catKind cfg) cfg.payload req).question = some x →
+      ∃ nx, Spec.specQuestionAt req 12 = some (x.qname, x.qtype, x.qclass, nx) :=
+    fun x hx => specBody_question (catKind cfg) cfg.payload req x hx
+  obtain ⟨_, _, _, _, _, _, hs3, _⟩ :=
+    s1_facts bufLen tr cfg.payload (Spec.Server.hdr req 0) (((req.getD 2 0).toNat &&& 120) >>> 3)
+      (((req.getD 2 0).toNat &&& 1) != 0) hbuf hpay req (specBody (catKind cfg) cfg.payload req).question hq
+  exact hs3
+
+/-- row 1: rejected by the decision table, and the reply TSIG fits -/
+def RowRejected (cfg : Cfg) (tr : Transport) (now bufLen : Nat) (req : Bytes) (t : Tsig.ReadTsigRr) (mw : Bytes) : Prop :=
+  ∃ nowT kn an rc mode rr, Tsig.TimeSigned.tryFromUnix now = some nowT ∧
+    WName.parse t.keyName = some (kn, []) ∧ WName.parse t.algorithm = some (an, []) ∧
+    tsigStopReply Tsig.realHmac cfg.keys nowT t mw.toList kn an = some (rc, mode, rr) ∧
+    TsigFits (preTsigState cfg tr bufLen req) mode rr
+
+/-- row 2: authenticated (the response TSIG fits), no-data verdict -/
+def RowAuthNoData (cfg : Cfg) (tr : Transport) (now bufLen : Nat) (req : Bytes) (t : Tsig.ReadTsigRr) (mw : Bytes)
+    (r' : Reader.Reader) : Prop :=
+  ∃ r'' S v, Server.tsigAfter cfg now t mw r' (preTsigState cfg tr bufLen req) = (.ok (some r''), S) ∧
+    (v = Spec.Server.Verdict.formErr ∨ v = .notImp ∨ v = .refused ∨ v = .servFailZone) ∧
+    endVerdict (catKind cfg) req.size (Spec.Server.specScanWith (catKind cfg) cfg.payload req).question
+      r'.cursor ((req.getD 2 0).toNat / 8 % 16) = v
+
+/-- row 3: authenticated (the response TSIG fits), a loaded zone answers -/
+def RowAuthAnswer (cfg : Cfg) (tr : Transport) (now bufLen : Nat) (req : Bytes) (t : Tsig.ReadTsigRr) (mw : Bytes)
+    (r' : Reader.Reader) : Prop :=
+  ∃ r'' S, Server.tsigAfter cfg now t mw r' (preTsigState cfg tr bufLen req) = (.ok (some r''), S) ∧
+    endVerdict (catKind cfg) req.size (Spec.Server.specScanWith (catKind cfg) cfg.payload req).question
+      r'.cursor ((req.getD 2 0).toNat / 8 % 16) = .answer
+
+/-- row 4: the reply TSIG does not fit -/
+def RowNoFit (cfg : Cfg) (tr : Transport) (now bufLen : Nat) (req : Bytes) (t : Tsig.ReadTsigRr) (mw : Bytes) : Prop :=
+  ∃ nowT kn, Tsig.TimeSigned.tryFromUnix now = some nowT ∧ WName.parse t.keyName = some (kn, []) ∧
+    NoFit cfg nowT t mw kn (preTsigState cfg tr bufLen req)
+
+theorem endVerdict_range (lookup : List UInt8 → Nat → Option Spec.Server.ZoneKind) (sz : Nat)
+    (q : Option Spec.DQuestion) (pos op : Nat) :
+    endVerdict lookup sz q pos op = .answer ∨ endVerdict lookup sz q pos op = .formErr ∨
+    endVerdict lookup sz q pos op = .notImp ∨ endVerdict lookup sz q pos op = .refused ∨
+    endVerdict lookup sz q pos op = .servFailZone := by
+  unfold endVerdict
+  repeat' split
+  all_goals simp
+
+/-- rows 1 and 4 stop the scan -/
+theorem rowRejected_stops {cfg : Cfg} {tr : Transport} {now bufLen : Nat} {req : Bytes} {t : Tsig.ReadTsigRr} {mw : Bytes}
+    (r' : Reader.Reader) (h3 : 3 < (preTsigState cfg tr bufLen req).octets.size)
+    (h : RowRejected cfg tr now bufLen req t mw) :
+    ∃ S, Server.tsigAfter cfg now t mw r' (preTsigState cfg tr bufLen req) = (.ok none, S) := by
+  obtain ⟨nowT, kn, an, rc, mode, rr, hnow, hkn, han, hrep, hfit⟩ := h
+  unfold Server.tsigAfter
+  rw [hnow]
+  exact ⟨_, tsigProcess_stop_state Tsig.realHmac cfg.keys _ h3 t mw.toList nowT r' kn an hkn han rc mode rr hrep hfit⟩
+
+theorem rowNoFit_stops {cfg : Cfg} {tr : Transport} {now bufLen : Nat} {req : Bytes} {t : Tsig.ReadTsigRr} {mw : Bytes}
+    (r' : Reader.Reader) (h3 : 3 < (preTsigState cfg tr bufLen req).octets.size)
+    (h : RowNoFit cfg tr now bufLen req t mw) :
+    ∃ S, Server.tsigAfter cfg now t mw r' (preTsigState cfg tr bufLen req) = (.ok none, S) := by
+  obtain ⟨nowT, kn, hnow, hkn, hnf⟩ := h
+  unfold Server.tsigAfter
+  rw [hnow]
+  rcases hnf with ⟨an, rc, mode, rr, han, hrep, hf⟩ | ⟨alg, key, ha, hk, hver, hf⟩
+  · exact ⟨_, tsigProcess_nofit_stop Tsig.realHmac cfg.keys _ h3 t mw.toList nowT r' kn an hkn han rc mode rr hrep hf⟩
+  · exact ⟨_, tsigProcess_nofit_ok Tsig.realHmac cfg.keys _ h3 t mw.toList nowT r' kn hkn alg key ha hk hver hf⟩
+
+/-- **the four rows are exhaustive and mutually exclusive**: a run of `handle_message` on a request
+    whose scan reaches a TSIG record, if it yields a response, falls into exactly one of: rejected and
+    the reply fits; authenticated with a no-data verdict; authenticated and answered by a loaded zone;
+    the reply TSIG does not fit -/
+theorem rows_exhaustive (cfg : Cfg) (tr : Transport) (now bufLen : Nat) (req : Bytes)
+    (hbuf : minBuf tr cfg.payload ≤ bufLen) (hpay : 512 ≤ cfg.payload)
+    (hr : (Spec.Server.specScanWith (catKind cfg) cfg.payload req).respond = true)
+    (t : Tsig.ReadTsigRr) (mw : Bytes) (r' : Reader.Reader) (question : Option (WName × Nat × Nat))
+    (hrun : TsigRun cfg tr now bufLen req t mw r' question)
+    (b : Bytes) (hb : Server.handleMessage cfg tr now bufLen req = .ok (some b)) :
+    (RowRejected cfg tr now bufLen req t mw ∨ RowAuthNoData cfg tr now bufLen req t mw r' ∨
+      RowAuthAnswer cfg tr now bufLen req t mw r' ∨ RowNoFit cfg tr now bufLen req t mw) ∧
+    ¬ (RowRejected cfg tr now bufLen req t mw ∧ RowAuthNoData cfg tr now bufLen req t mw r') ∧
+    ¬ (RowRejected cfg tr now bufLen req t mw ∧ RowAuthAnswer cfg tr now bufLen req t mw r') ∧
+    ¬ (RowRejected cfg tr now bufLen req t mw ∧ RowNoFit cfg tr now bufLen req t mw) ∧
+    ¬ (RowAuthNoData cfg tr now bufLen req t mw r' ∧ RowAuthAnswer cfg tr now bufLen req t mw r') ∧
+    ¬ (RowAuthNoData cfg tr now bufLen req t mw r' ∧ RowNoFit cfg tr now bufLen req t mw) ∧
+    ¬ (RowAuthAnswer cfg tr now bufLen req t mw r' ∧ RowNoFit cfg tr now bufLen req t mw) := by
+  have h3 := preTsig_size3 cfg tr bufLen req hbuf hpay hr
+  obtain ⟨_, _, _, h4⟩ := hrun
+  refine ⟨?_, ?_, ?_, ?_, ?_, ?_, ?_⟩
+  · -- exhaustive
+    rw [hb] at h4
+    rcases hT : Server.tsigAfter cfg now t mw r' (preTsigState cfg tr bufLen req) with ⟨(o | e | _), S⟩
+    · have hT' := hT
+      unfold Server.tsigAfter at hT'
+      cases hnow : Tsig.TimeSigned.tryFromUnix now with
+      | none => rw [hnow] at hT'; cases hT'
+      | some nowT =>
+        rw [hnow] at hT'
+        simp only at hT'
+        obtain ⟨kn, hkn, hrows⟩ := tsigProcess_rows Tsig.realHmac cfg.keys _ h3 t mw.toList nowT r' o S hT'
+        rcases hrows with ⟨an, rc, mode, rr, han, hrep, _⟩ | ⟨alg, key, ha, hk, hver, hfo⟩
+        · by_cases hf : TsigFits (preTsigState cfg tr bufLen req) mode rr
+          · exact Or.inl ⟨nowT, kn, an, rc, mode, rr, hnow, hkn, han, hrep, hf⟩
+          · exact Or.inr (Or.inr (Or.inr ⟨nowT, kn, hnow, hkn, Or.inl ⟨an, rc, mode, rr, han, hrep, hf⟩⟩))
+        · rcases hfo with ⟨hf, ho⟩ | ⟨hf, ho⟩
+          · subst ho
+            rcases endVerdict_range (catKind cfg) req.size (Spec.Server.specScanWith (catKind cfg) cfg.payload req).question
+              r'.cursor ((req.getD 2 0).toNat / 8 % 16) with h | h | h | h | h
+            · exact Or.inr (Or.inr (Or.inl ⟨r', S, hT, h⟩))
+            · exact Or.inr (Or.inl ⟨r', S, _, hT, Or.inl rfl, h⟩)
+            · exact Or.inr (Or.inl ⟨r', S, _, hT, Or.inr (Or.inl rfl), h⟩)
+            · exact Or.inr (Or.inl ⟨r', S, _, hT, Or.inr (Or.inr (Or.inl rfl)), h⟩)
+            · exact Or.inr (Or.inl ⟨r', S, _, hT, Or.inr (Or.inr (Or.inr rfl)), h⟩)
+          · exact Or.inr (Or.inr (Or.inr ⟨nowT, kn, hnow, hkn, Or.inr ⟨alg, key, ha, hk, hver, hf⟩⟩))
+    · rw [hT] at h4; simp only [afterTsig] at h4; cases h4
+    · rw [hT] at h4; simp only [afterTsig] at h4; cases h4
+  · rintro ⟨h1, r'', S, v, hT, _, _⟩
+    obtain ⟨S', hS⟩ := rowRejected_stops r' h3 h1
+    rw [hS] at hT; cases hT
+  · rintro ⟨h1, r'', S, hT, _⟩
+    obtain ⟨S', hS⟩ := rowRejected_stops r' h3 h1
+    rw [hS] at hT; cases hT
+  · rintro ⟨⟨nowT, kn, an, rc, mode, rr, hnow, hkn, han, hrep, hfit⟩, nowT', kn', hnow', hkn', hnf⟩
+    rw [hnow] at hnow'; cases hnow'
+    rw [hkn] at hkn'; cases hkn'
+    rcases hnf with ⟨an', rc', mode', rr', han', hrep', hf'⟩ | ⟨alg, key, ha, hk, hver, _⟩
+    · rw [han] at han'; cases han'
+      rw [hrep] at hrep'; cases hrep'
+      exact hf' hfit
+    · simp only [tsigStopReply, ha, hk, hver] at hrep
+      cases hrep
+  · rintro ⟨⟨r'', S, v, hT, hvv, hev⟩, r2, S2, _, hev2⟩
+    rw [hev2] at hev
+    rcases hvv with rfl | rfl | rfl | rfl <;> cases hev
+  · rintro ⟨⟨r'', S, v, hT, _, _⟩, h4⟩
+    obtain ⟨S', hS⟩ := rowNoFit_stops r' h3 h4
+    rw [hS] at hT; cases hT
+  · rintro ⟨⟨r'', S, hT, _⟩, h4⟩
+    obtain ⟨S', hS⟩ := rowNoFit_stops r' h3 h4
+    rw [hS] at hT; cases hT
+
+
+/-! ### towards the executable audit (`Spec.ServerTsig.audit`) -/
+
+/-- whether the scan answers at all, and whether it reaches a TSIG record (with which question, EDNS
+    flag and UDP limit), does not depend on the catalog -/
+theorem specScanWith_tsig_indep (l1 l2 : List UInt8 → Nat → Option Spec.Server.ZoneKind) (S : Nat) (msg : Bytes) :
+    (Spec.Server.specScanWith l1 S msg).respond = (Spec.Server.specScanWith l2 S msg).respond ∧
+    ((Spec.Server.specScanWith l1 S msg).verdict = .tsigReached ↔ (Spec.Server.specScanWith l2 S msg).verdict = .tsigReached) ∧
+    ((Spec.Server.specScanWith l1 S msg).verdict = .tsigReached →
+      (Spec.Server.specScanWith l1 S msg).question = (Spec.Server.specScanWith l2 S msg).question ∧
+      (Spec.Server.specScanWith l1 S msg).edns = (Spec.Server.specScanWith l2 S msg).edns ∧
+      (Spec.Server.specScanWith l1 S msg).limitUdp = (Spec.Server.specScanWith l2 S msg).limitUdp) := by
+  unfold Spec.Server.specScanWith
+  by_cases h1 : msg.size < 12
+  · rw [if_pos h1, if_pos h1]; exact ⟨rfl, Iff.rfl, fun _ => ⟨rfl, rfl, rfl⟩⟩
+  · by_cases h2 : (msg.getD 2 0).toNat ≥ 128
+    · rw [if_neg h1, if_neg h1, if_pos h2, if_pos h2]; exact ⟨rfl, Iff.rfl, fun _ => ⟨rfl, rfl, rfl⟩⟩
+    · simp only [h1, h2, if_false]
+      by_cases h3 : Spec.Server.hdr msg 4 > 1
+      · rw [if_pos h3, if_pos h3]; exact ⟨rfl, Iff.rfl, fun _ => ⟨rfl, rfl, rfl⟩⟩
+      · simp only [h3, if_false]
+        generalize (if Spec.Server.hdr msg 4 = 0 then some (none, 12)
+          else match Spec.specQuestionAt msg 12 with
+            | some (w, t, c, nx) => some (some (⟨w, t, c⟩ : Spec.DQuestion), nx)
+            | none => none) = qres
+        cases qres with
+        | none => exact ⟨rfl, Iff.rfl, fun _ => ⟨rfl, rfl, rfl⟩⟩
+        | some v =>
+          obtain ⟨q, p1⟩ := v
+          simp only
+          cases Spec.Server.scanPlain msg (Spec.Server.hdr msg 6 + Spec.Server.hdr msg 8) p1 with
+          | none => exact ⟨rfl, Iff.rfl, fun _ => ⟨rfl, rfl, rfl⟩⟩
+          | some p2 =>
+            simp only
+            rcases Spec.Server.scanAr msg S (Spec.Server.hdr msg 10) (Spec.Server.hdr msg 10) p2 false 512 with ⟨en, e, l⟩
+            cases en with
+            | formErr => exact ⟨rfl, Iff.rfl, fun _ => ⟨rfl, rfl, rfl⟩⟩
+            | badVers => exact ⟨rfl, Iff.rfl, fun _ => ⟨rfl, rfl, rfl⟩⟩
+            | tsig => exact ⟨rfl, Iff.rfl, fun _ => ⟨rfl, rfl, rfl⟩⟩
+            | done p3 =>
+              simp only
+              refine ⟨?_, ?_, ?_⟩
+              · repeat' split
+                all_goals rfl
+              · constructor <;> (intro h; exfalso; revert h; repeat' split
+                                 all_goals simp)
+              · intro h; exfalso; revert h; repeat' split
+                all_goals simp
+
+/-- a `Good` final writer without a pending TSIG whose own additional records are address records:
+    no decoding of what `finish` returns has a record of type 250, and a decoding exists -/
+theorem no_tsig_of_good (F : State) (bd : Body) (hG : Good F bd) (hts : F.tsig = none)
+    (hty : ∀ r ∈ bd.ar, r.ty = 1 ∨ r.ty = 28) (b : Bytes) (mac : Option (List UInt8))
+    (hf : Writer.finish F Server.macFn = .ok (b, mac)) (d : DMsg) (hd : specDecodeMsg b = some d) :
+    ∀ o ∈ d.ar, o.ty ≠ 250 := by
+  obtain ⟨hI, hlim, mb, hL⟩ := hG
+  have hsz : b.size ≤ 65535 := Nat.le_trans (finish_size_le_limit Server.macFn F hI.inv b mac hf) hlim
+  obtain ⟨d', qs, ian, ins, iar, hd', _, _, _, e4, _, _, _, m4, _, _⟩ :=
+    finish_decodes_content Server.macFn F bd mb hI hL b mac hf hsz
+  rw [hd] at hd'
+  cases hd'
+  rw [hts] at e4
+  simp only [tsigRecs, List.append_nil] at e4
+  intro o ho h250
+  obtain ⟨it, hit, hm⟩ := all2_mem_right m4 o ho
+  have hmem : it.r ∈ bd.ar ++ optRecs' F.edns := by rw [← e4]; exact List.mem_map.mpr ⟨it, hit, rfl⟩
+  rw [hm.2.2.1] at h250
+  rcases List.mem_append.mp hmem with h | h
+  · rcases hty _ h with h1 | h1 <;> rw [h1] at h250 <;> simp at h250
+  · cases hed : F.edns with
+    | none => rw [hed] at h; simp [optRecs'] at h
+    | some e =>
+      rw [hed] at h
+      simp only [optRecs', List.mem_singleton] at h
+      rw [h] at h250
+      have : Writer.T_OPT % 65536 = 41 := by rw [T_OPT_eq]
+      simp only at h250
+      omega
+
+theorem decodes_of_good (F : State) (bd : Body) (hG : Good F bd) (b : Bytes) (mac : Option (List UInt8))
+    (hf : Writer.finish F Server.macFn = .ok (b, mac)) : ∃ d, specDecodeMsg b = some d := by
+  obtain ⟨hI, hlim, mb, hL⟩ := hG
+  have hsz : b.size ≤ 65535 := Nat.le_trans (finish_size_le_limit Server.macFn F hI.inv b mac hf) hlim
+  obtain ⟨d', _, _, _, _, hd', _⟩ := finish_decodes_content Server.macFn F bd mb hI hL b mac hf hsz
+  exact ⟨d', hd'⟩
+
+/-- **a response to a request whose scan does not reach a TSIG record carries no TSIG record** -/
+theorem unsigned_no_tsig (cfg : Cfg) (hcfg : CfgWF cfg) (tr : Transport) (now bufLen : Nat) (req : Bytes)
+    (hbuf : minBuf tr cfg.payload ≤ bufLen) (hpay : 512 ≤ cfg.payload) (hp16 : cfg.payload ≤ 65535)
+    (hreq : req.size ≤ Rdata.USIZE_MAX)
+    (hr : (Spec.Server.specScanWith (catKind cfg) cfg.payload req).respond = true)
+    (hv : (Spec.Server.specScanWith (catKind cfg) cfg.payload req).verdict ≠ .tsigReached)
+    (b : Bytes) (hb : Server.handleMessage cfg tr now bufLen req = .ok (some b))
+    (d : DMsg) (hd : specDecodeMsg b = some d) : ∀ o ∈ d.ar, o.ty ≠ 250 := by
+  by_cases hnd : noDataV (Spec.Server.specScanWith (catKind cfg) cfg.payload req).verdict = true
+  · obtain ⟨F, b', mac, hb', hf, hG, hts, _⟩ := unsigned_nodata_final cfg tr now bufLen req hbuf hpay hp16 hreq hr hnd
+    rw [hb] at hb'
+    simp only [Out.ok.injEq, Option.some.injEq] at hb'
+    subst hb'
+    exact no_tsig_of_good F _ hG hts (by rw [(qBody_norecs _).2.2]; simp) b mac hf d hd
+  · have hva : (Spec.Server.specScanWith (catKind cfg) cfg.payload req).verdict = .answer := by
+      cases hx : (Spec.Server.specScanWith (catKind cfg) cfg.payload req).verdict <;> rw [hx] at hnd hv <;>
+        first | rfl | exact absurd rfl hv | exact absurd rfl hnd
+    have h12 : 12 ≤ req.size := by
+      by_cases hc : req.size < 12
+      · rw [handleMessage_short cfg tr now bufLen req hbuf hc] at hb; cases hb
+      · omega
+    have hqr : (req.getD 2 0).toNat < 128 := by
+      by_cases hc : (req.getD 2 0).toNat ≥ 128
+      · rw [handleMessage_qr cfg tr now bufLen req hbuf h12 hc] at hb; cases hb
+      · omega
+    rw [specScanWith_eq] at hva
+    simp only [show ¬ req.size < 12 by omega, show ¬ (req.getD 2 0).toNat ≥ 128 by omega, if_false] at hva
+    obtain ⟨hts, _⟩ := hwc_answer_slot cfg tr now bufLen req hbuf hpay h12 hreq (Spec.Server.hdr req 0)
+      (((req.getD 2 0).toNat &&& 120) >>> 3) (((req.getD 2 0).toNat &&& 1) != 0) hva
+    obtain ⟨bd, hG, _, hty⟩ := answer_final_good cfg hcfg tr now bufLen req hbuf hpay hp16 h12 hreq
+      (Spec.Server.hdr req 0) (((req.getD 2 0).toNat &&& 120) >>> 3) (((req.getD 2 0).toNat &&& 1) != 0) hva
+    rw [handleMessage_eq cfg tr now bufLen req hbuf hpay h12 hqr] at hb
+    rcases hh : Server.handleWithContext cfg tr now ⟨req, 12, none⟩
+        (hdrSt (w0 bufLen (lim0 tr)) (Spec.Server.hdr req 0) (((req.getD 2 0).toNat &&& 120) >>> 3)
+          (((req.getD 2 0).toNat &&& 1) != 0)) with ⟨(bb | e | _), w1⟩
+    · rw [hh] at hb hts hG
+      simp only at hts hG
+      cases bb with
+      | false => simp only at hb; cases hb
+      | true =>
+        simp only at hb
+        rcases hf : Writer.finish w1 Server.macFn with ⟨bytes, mac⟩ | e | _
+        · rw [hf] at hb
+          simp only [Out.ok.injEq, Option.some.injEq] at hb
+          subst hb
+          exact no_tsig_of_good w1 bd hG hts hty bytes mac hf d hd
+        · rw [hf] at hb; cases hb
+        · rw [hf] at hb; cases hb
+    · rw [hh] at hb; cases hb
+    · rw [hh] at hb; cases hb
+
+/-- **a request whose scan reaches a TSIG record gets a response, and the response decodes** -/
+theorem signed_response_decodes (cfg : Cfg) (hcfg : CfgWF cfg) (tr : Transport) (now bufLen : Nat) (req : Bytes)
+    (hbuf : minBuf tr cfg.payload ≤ bufLen) (hpay : 512 ≤ cfg.payload) (hp16 : cfg.payload ≤ 65535)
+    (hreq : req.size ≤ Rdata.USIZE_MAX)
+    (hr : (Spec.Server.specScanWith (catKind cfg) cfg.payload req).respond = true)
+    (hv : (Spec.Server.specScanWith (catKind cfg) cfg.payload req).verdict = .tsigReached)
+    (hnp : Server.handleMessage cfg tr now bufLen req ≠ .panic) :
+    ∃ b d, Server.handleMessage cfg tr now bufLen req = .ok (some b) ∧ specDecodeMsg b = some d := by
+  obtain ⟨t, mw, r', question, _, _, _, h4⟩ := handleMessage_tsig_eq cfg tr now bufLen req hbuf hpay hreq hr hv
+  have hsome : ∃ b, Server.handleMessage cfg tr now bufLen req = .ok (some b) := by
+    rcases hm : Server.handleMessage cfg tr now bufLen req with (_ | b) | e | _
+    · have := (handleMessage_none_iff cfg tr now bufLen req hbuf hpay (catKind cfg)).mp hm
+      rw [hr] at this; cases this
+    · exact ⟨b, rfl⟩
+    · exfalso
+      rw [hm] at h4
+      generalize afterTsig _ _ _ _ _ _ _ _ = X at h4
+      rcases X with ⟨(bb | x | _), w1⟩
+      · cases bb
+        · cases h4
+        · simp only at h4
+          generalize Writer.finish w1 Server.macFn = f at h4
+          rcases f with ⟨b, m⟩ | x | _ <;> cases h4
+      · cases h4
+      · cases h4
+    · exact absurd hm hnp
+  obtain ⟨b, hb⟩ := hsome
+  obtain ⟨F, mac, bd, hf, hG, _⟩ := signed_final_good cfg hcfg tr now bufLen req hbuf hpay hp16 hreq hr hv b hb
+  obtain ⟨d, hd⟩ := decodes_of_good F bd hG b mac hf
+  exact ⟨b, d, hb, hd⟩
+
+
+/-! ### the TSIG RDATA round trip -/
+
+theorem splitNameAux_wire (rest : List UInt8) : ∀ (ls : List Label), (∀ l ∈ ls, 1 ≤ l.length ∧ l.length ≤ 63) →
+    ∀ fuel, ls.length + 1 ≤ fuel → Spec.Tsig.splitNameAux fuel (ls.flatMap WName.encLabel ++ 0 :: rest) = some (ls, rest) := by
+  intro ls
+  induction ls with
+  | nil =>
+    intro _ fuel hf
+    cases fuel with
+    | zero => omega
+    | succ f => simp [Spec.Tsig.splitNameAux]
+  | cons l r ih =>
+    intro hl fuel hf
+    cases fuel with
+    | zero => omega
+    | succ f =>
+      obtain ⟨h1, h2⟩ := hl l (by simp)
+      have hlen : (UInt8.ofNat l.length).toNat = l.length := by
+        simp only [UInt8.toNat_ofNat', Nat.reducePow]; omega
+      have hne : UInt8.ofNat l.length ≠ 0 := by
+        intro h; rw [h] at hlen; have : (0 : UInt8).toNat = 0 := rfl; omega
+      simp only [List.flatMap_cons, WName.encLabel, List.cons_append, List.append_assoc, Spec.Tsig.splitNameAux, hne, if_false, hlen]
+      rw [if_neg (by simp only [List.length_append]; omega)]
+      rw [List.drop_left' rfl, List.take_left' rfl]
+      rw [ih (fun x hx => hl x (by simp [hx])) f (by simp only [List.length_cons] at hf; omega)]
+      rfl
+
+theorem length_le_flatMap (ls : List Label) : ls.length ≤ (ls.flatMap WName.encLabel).length := by
+  induction ls with
+  | nil => simp
+  | cons a r ih =>
+    simp only [List.flatMap_cons, List.length_append, WName.encLabel, List.length_cons]
+    omega
+
+theorem splitName_wire (n : WName) (h : n.WF) (rest : List UInt8) :
+    Spec.Tsig.splitName (n.wire ++ rest) = some (n.labels, rest) := by
+  obtain ⟨hl, hw⟩ := h
+  unfold Spec.Tsig.splitName
+  have : n.wire ++ rest = n.labels.flatMap WName.encLabel ++ 0 :: rest := by
+    unfold WName.wire; simp
+  have hwl : n.labels.length + 1 ≤ (n.wire ++ rest).length + 1 := by
+    have := length_le_flatMap n.labels
+    unfold WName.wire
+    simp only [List.length_append, List.length_cons, List.length_nil]
+    omega
+  rw [this] at hwl ⊢
+  rw [splitNameAux_wire rest n.labels (fun l hl' => ⟨(hl l hl').1, (hl l hl').2⟩) _ hwl]
+  simp only
+  rw [if_pos]
+  rw [← this]
+  simp only [List.length_append]
+  have : Gen.MAX_WIRE_LEN = 255 := rfl
+  omega
+
+
+theorem field16_u16be (n : Nat) (rest : List UInt8) : Spec.Tsig.field16 (u16be n ++ rest) 0 = n % 65536 := by
+  simp only [Spec.Tsig.field16, u16be, List.cons_append, List.nil_append, List.getD_cons_zero, List.getD_cons_succ,
+    UInt8.toNat_ofNat', Nat.reducePow]
+  omega
+
+theorem list6 (l : List UInt8) (h : l.length = 6) : ∃ a b c d e f, l = [a, b, c, d, e, f] := by
+  match l, h with
+  | [a, b, c, d, e, f], _ => exact ⟨a, b, c, d, e, f, rfl⟩
+
+theorem u8_two (x : Nat) : (UInt8.ofNat (x / 256 % 256)).toNat * 256 + (UInt8.ofNat (x % 256)).toNat = x % 65536 := by
+  simp only [UInt8.toNat_ofNat', Nat.reducePow]; omega
+
+theorem parseRdata_build (alg : WName) (halg : alg.WF) (ts : List UInt8) (ht : ts.length = 6)
+    (fudge oid err : Nat) (mac other : List UInt8) (hmac : mac.length < 65536) (hol : other.length < 65536) :
+    Spec.Tsig.parseRdata (alg.wire ++ ts ++ u16be fudge ++ u16be mac.length ++ mac ++ u16be oid ++ u16be err ++
+        u16be other.length ++ other) =
+      some ⟨alg.labels, Spec.Tsig.nat48 ts, fudge % 65536, mac, oid % 65536, err % 65536, other⟩ := by
+  obtain ⟨a, b, c, d, e, f, rfl⟩ := list6 _ ht
+  have e1 : alg.wire ++ [a, b, c, d, e, f] ++ u16be fudge ++ u16be mac.length ++ mac ++ u16be oid ++ u16be err ++
+      u16be other.length ++ other =
+      alg.wire ++ (a :: b :: c :: d :: e :: f :: UInt8.ofNat (fudge / 256 % 256) :: UInt8.ofNat (fudge % 256) ::
+        UInt8.ofNat (mac.length / 256 % 256) :: UInt8.ofNat (mac.length % 256) ::
+        (mac ++ (UInt8.ofNat (oid / 256 % 256) :: UInt8.ofNat (oid % 256) :: UInt8.ofNat (err / 256 % 256) ::
+          UInt8.ofNat (err % 256) :: UInt8.ofNat (other.length / 256 % 256) :: UInt8.ofNat (other.length % 256) ::
+          other))) := by
+    simp only [u16be, List.append_assoc, List.cons_append, List.nil_append]
+  rw [e1]
+  unfold Spec.Tsig.parseRdata
+  rw [splitName_wire alg halg]
+  simp only
+  have hms : Spec.Tsig.field16 (a :: b :: c :: d :: e :: f :: UInt8.ofNat (fudge / 256 % 256) :: UInt8.ofNat (fudge % 256) ::
+        UInt8.ofNat (mac.length / 256 % 256) :: UInt8.ofNat (mac.length % 256) ::
+        (mac ++ (UInt8.ofNat (oid / 256 % 256) :: UInt8.ofNat (oid % 256) :: UInt8.ofNat (err / 256 % 256) ::
+          UInt8.ofNat (err % 256) :: UInt8.ofNat (other.length / 256 % 256) :: UInt8.ofNat (other.length % 256) ::
+          other))) 8 = mac.length := by
+    simp only [Spec.Tsig.field16, List.getD_cons_succ, List.getD_cons_zero]
+    rw [u8_two mac.length]; omega
+  have hfu : Spec.Tsig.field16 (a :: b :: c :: d :: e :: f :: UInt8.ofNat (fudge / 256 % 256) :: UInt8.ofNat (fudge % 256) ::
+        UInt8.ofNat (mac.length / 256 % 256) :: UInt8.ofNat (mac.length % 256) ::
+        (mac ++ (UInt8.ofNat (oid / 256 % 256) :: UInt8.ofNat (oid % 256) :: UInt8.ofNat (err / 256 % 256) ::
+          UInt8.ofNat (err % 256) :: UInt8.ofNat (other.length / 256 % 256) :: UInt8.ofNat (other.length % 256) ::
+          other))) 6 = fudge % 65536 := by
+    simp only [Spec.Tsig.field16, List.getD_cons_succ, List.getD_cons_zero]
+    exact u8_two fudge
+  rw [hms, hfu]
+  simp only [List.length_cons, List.length_append, List.drop_succ_cons, List.drop_zero]
+  rw [if_neg (by omega), if_neg (by omega)]
+  rw [List.drop_left' rfl, List.take_left' rfl]
+  have h4 : Spec.Tsig.field16 (UInt8.ofNat (oid / 256 % 256) :: UInt8.ofNat (oid % 256) :: UInt8.ofNat (err / 256 % 256) ::
+          UInt8.ofNat (err % 256) :: UInt8.ofNat (other.length / 256 % 256) :: UInt8.ofNat (other.length % 256) ::
+          other) 4 = other.length := by
+    simp only [Spec.Tsig.field16, List.getD_cons_succ, List.getD_cons_zero]
+    rw [u8_two other.length]; omega
+  have h0 : Spec.Tsig.field16 (UInt8.ofNat (oid / 256 % 256) :: UInt8.ofNat (oid % 256) :: UInt8.ofNat (err / 256 % 256) ::
+          UInt8.ofNat (err % 256) :: UInt8.ofNat (other.length / 256 % 256) :: UInt8.ofNat (other.length % 256) ::
+          other) 0 = oid % 65536 := by
+    simp only [Spec.Tsig.field16, List.getD_cons_succ, List.getD_cons_zero]
+    exact u8_two oid
+  have h2 : Spec.Tsig.field16 (UInt8.ofNat (oid / 256 % 256) :: UInt8.ofNat (oid % 256) :: UInt8.ofNat (err / 256 % 256) ::
+          UInt8.ofNat (err % 256) :: UInt8.ofNat (other.length / 256 % 256) :: UInt8.ofNat (other.length % 256) ::
+          other) 2 = err % 65536 := by
+    simp only [Spec.Tsig.field16, List.getD_cons_succ, List.getD_cons_zero]
+    exact u8_two err
+  rw [h4, h0, h2]
+  simp only [List.drop_succ_cons, List.drop_zero, ne_eq, not_true_eq_false, if_false]
+  rfl
+
+/-- **the TSIG RDATA the writer serialises parses back to its fields** (RFC 8945 §4.2 reader of the
+    specification on `serialize_tsig_unchecked`'s octets) -/
+theorem parseRdata_tsigRdata (rr : TsigRr) (alg : WName) (mac : List UInt8) (halg : alg.WF)
+    (ht : rr.timeSigned.length = 6) (hs : rr.serverTime.length = 6) (hmac : mac.length < 65536) :
+    Spec.Tsig.parseRdata (tsigRdata rr alg mac) =
+      some ⟨alg.labels, Spec.Tsig.nat48 rr.timeSigned, rr.fudge % 65536, mac, rr.originalId % 65536, rr.error % 65536,
+        if rr.error = XR_BADTIME then rr.serverTime else []⟩ := by
+  unfold tsigRdata
+  exact parseRdata_build alg halg rr.timeSigned ht rr.fudge rr.originalId rr.error mac _ hmac (by
+    split
+    · rw [hs]; omega
+    · simp)
+
+
+/-! ### the decoded TSIG record, field by field -/
+
+theorem finishMac_length (ts : Writer.Tsig) (pre : List UInt8) :
+    ((finishMac Server.macFn ts pre).getD []).length < 65536 := by
+  have hm := macLenOK_server hmacLenOK ts pre
+  unfold finishMac
+  cases hmode : ts.mode with
+  | unsigned n => simp
+  | request a k => simp only [Option.getD_some]; rw [hmode] at hm; simp only at hm; cases a <;> simp only [algOutputSize] at hm <;> omega
+  | response a m k => simp only [Option.getD_some]; rw [hmode] at hm; simp only at hm; cases a <;> simp only [algOutputSize] at hm <;> omega
+  | subsequent a m k => simp only [Option.getD_some]; rw [hmode] at hm; simp only at hm; cases a <;> simp only [algOutputSize] at hm <;> omega
+
+/-- **a `Good` final writer with a pending TSIG, decoded field by field**: RCODE / AA / TC as the
+    header shows; the last additional record is the TSIG record, and the specification's RFC 8945
+    §4.2 reader (`Spec.Tsig.parseRdata`) reads from its RDATA exactly the fields of the recorded RR:
+    algorithm name, time signed, fudge, the MAC `finish` computed, original ID, error, other data
+    (the server time iff the error is BADTIME) -/
+theorem tsig_fields_of_good (F : State) (bd : Body) (hG : Good F bd) (ts : Writer.Tsig) (hts : F.tsig = some ts)
+    (hwf : (tsigAlgName ts.mode).WF) (l1 : ts.rr.timeSigned.length = 6) (l2 : ts.rr.serverTime.length = 6)
+    (v : View) (hh : HdrView F v) (b : Bytes) (mac : Option (List UInt8))
+    (hf : Writer.finish F Server.macFn = .ok (b, mac)) (d : DMsg) (hd : specDecodeMsg b = some d) :
+    d.rcode = v.rcode % 16 ∧ d.aa = v.aa ∧ d.tc = v.tc ∧
+    ∃ rest o, d.ar = rest ++ [o] ∧ o.ty = 250 ∧ o.cls = 255 ∧ o.rawTtl = 0 ∧
+      Spec.Tsig.parseRdata o.rdata = some ⟨(tsigAlgName ts.mode).labels, Spec.Tsig.nat48 ts.rr.timeSigned,
+        ts.rr.fudge % 65536, mac.getD [], ts.rr.originalId % 65536, ts.rr.error % 65536,
+        if ts.rr.error = XR_BADTIME then ts.rr.serverTime else []⟩ := by
+  obtain ⟨f2, f3⟩ := finish_flags_tsig F hG.1 ts hts b mac hf
+  obtain ⟨g1, g2, g3⟩ := flags_of_hdrView b F v f2 f3 hh d hd
+  obtain ⟨rest, o, e1, e2, e3, e4, _, e6, _, _⟩ := tsig_of_good Server.macFn F bd hG ts hts b mac hf d hd
+  obtain ⟨_, hmac, _⟩ := finish_octets_tsig Server.macFn F hG.1.inv.hdr ts hts b mac hf
+  refine ⟨g1, g2, g3, rest, o, e1, e2, e3, e4, ?_⟩
+  rw [e6]
+  exact parseRdata_tsigRdata ts.rr (tsigAlgName ts.mode) (mac.getD []) hwf l1 l2 (by rw [hmac]; exact finishMac_length ts _)
+
+open QV.ServerTsig in
+/-- what the decision table prescribes for a rejected request: the prepared RR with error BADSIG (16),
+    BADKEY (17) or BADTIME (18), RCODE NOTAUTH (9) or FORMERR (1) -/
+theorem tsigStopReply_prep {hm : Tsig.Algorithm → Tsig.Octets → Tsig.Octets → Tsig.Octets} {keys : List Server.Key}
+    {nowT : Tsig.TimeSigned} {r : Tsig.ReadTsigRr} {msg : List UInt8} {kn an : WName} {rc : Nat} {mode : TsigMode}
+    {rr : TsigRr} (h : tsigStopReply hm keys nowT r msg kn an = some (rc, mode, rr)) :
+    (rc = 9 ∨ rc = 1) ∧ ∃ e, (e = 16 ∨ e = 17 ∨ e = 18) ∧ rr = prepOf kn r nowT e := by
+  unfold tsigStopReply at h
+  repeat' split at h
+  all_goals first
+    | (cases h; done)
+    | (simp only [Option.some.injEq, Prod.mk.injEq] at h
+       obtain ⟨rfl, _, rfl⟩ := h
+       exact ⟨by omega, _, by omega, rfl⟩)
+
 
 end QV.ServerContent
